@@ -564,6 +564,12 @@ def run_models(ctx):
     return vlib.pmap(one, MODELS, workers=4)
 
 
+def describe(c, kind):
+    lv = "/".join("-" if l["kind"] == "unset" else ("BROKEN" if l["kind"] == "broken" else "[" + ",".join(l["list"]) + "]") for l in c["levels"])
+    return "conf %s%s%s pkg=%s" % (lv, " -checks=" + ",".join(c["checks"]["list"]) if c["checks"]["set"] else "",
+                                   " -fail=" + ",".join(c["fail"]["list"]) if c["fail"]["set"] else "", kind)
+
+
 def report(ctx, mism, mode):
     for (unit, what, obs, meta) in mism:
         if len(ctx.violations) >= 25:
@@ -573,6 +579,7 @@ def report(ctx, mism, mode):
             c, kind = unit
             key = case_key(c, kind)
             case = {"kind": "lint", "case": strip(c), "pkg": kind, "format": meta["format"], "mode": mode, "observed": obs}
+            what = describe(c, kind) + ": " + what
         else:
             cs = [(strip(c), k) for (c, k, _) in meta["units"]]
             key = vlib.canon_key({"job": [case_key(c, k) for (c, k, _) in meta["units"]], "format": meta["format"]})
